@@ -27,4 +27,5 @@ mkdir -p "$(dirname "$out")"
     done
   fi
   echo '}}'
-} > "$out"
+} > "$out.$$.tmp"
+mv -f "$out.$$.tmp" "$out"
